@@ -44,6 +44,8 @@ func genC15(r *Rng, e *Emitter, n int) {
 			b = append(geom.Coord{}, a...) // zero-length segment
 		}
 		c, d := pt(), pt()
+		// the values are moved into long-lived buffers that the next case overwrites
+		defer0 := func() { a, b, c, d = slot(0, a...), slot(1, b...), slot(2, c...), slot(3, d...) }
 		switch r.Intn(8) {
 		case 0: // parallel
 			for k := 0; k < dim; k++ {
@@ -68,6 +70,7 @@ func genC15(r *Rng, e *Emitter, n int) {
 			}
 		}
 		e.tally(fmt.Sprintf("grid=%d", g))
+		defer0()
 		switch kind {
 		case 0:
 			e.tally("op=ptseg2")
